@@ -41,9 +41,14 @@ USER, PROB = 'u', 'p'
 def q(nm): return nm if nm.isalnum() else '"%s"' % nm
 
 
-def dnf_bytes(names, tabs):
-    """the submitted text: s(..) facts, then one ac per statement in full DNF whose minterms are guarded by c(v)/c(f); the byte v/f is ord('v') if the
-    table bit is true - symbolic where the table bit is"""
+FORMS = ['dnf', 'imp', 'xorc', 'iffc']
+
+def dnf_bytes(names, tabs, form='dnf'):
+    """the submitted text: s(..) facts, then one ac per statement as a normal form over all statements whose minterm M_r carries a constant c(X_r); the byte
+    X_r is ord('v') if the table bit of row r is true - symbolic where the table bit is.  Four ways to write the same function, so that every connective
+    meets a constant on its way through the parser and both compilers:
+      dnf   or-tree of  and(M_r, c(X_r))                  imp   and-tree of  imp(M_r, c(X_r))
+      xorc  or-tree of  and(M_r, xor(c(f), c(X_r)))       iffc  or-tree of  and(M_r, iff(c(v), c(X_r)))"""
     n = len(names); out = []
     def put(s): out.extend(s.encode())
     for nm in names: put('s(%s). ' % q(nm))
@@ -52,15 +57,16 @@ def dnf_bytes(names, tabs):
             lits = [(q(names[v]) if (r >> v) & 1 else 'neg(%s)' % q(names[v])) for v in range(n)]
             cur = lits[0]
             for l in lits[1:]: cur = 'and(%s,%s)' % (cur, l)
-            return ('and(%s,c(' % cur, r)
+            pre = {'dnf': 'and(%s,c(', 'imp': 'imp(%s,c(', 'xorc': 'and(%s,xor(c(f),c(', 'iffc': 'and(%s,iff(c(v),c('}[form] % cur
+            return (pre, r)
         def tree(lo, hi):
             if hi - lo == 1:
                 pre, r = minterm(lo); put(pre)
                 b = tabs[s][r]
                 out.append(z3.If(b, z3.BitVecVal(ord('v'), 8), z3.BitVecVal(ord('f'), 8)) if is_sym(b) else (ord('v') if b else ord('f')))
-                put('))'); return
+                put(')))' if form in ('xorc', 'iffc') else '))'); return
             mid = (lo + hi) // 2
-            put('or('); tree(lo, mid); put(','); tree(mid, hi); put(')')
+            put('and(' if form == 'imp' else 'or('); tree(lo, mid); put(','); tree(mid, hi); put(')')
         put('ac(%s,' % q(nm)); tree(0, 1 << n); put('). ')
     return out
 
@@ -68,7 +74,7 @@ def dnf_bytes(names, tabs):
 def text_of_model(m, bs): return bytes((m.eval(b, model_completion=True).as_long() if is_sym(b) else b) for b in bs).decode()
 
 
-def dnf_text(names, tabs): return bytes(dnf_bytes(names, [[bool(b) for b in t] for t in tabs])).decode()
+def dnf_text(names, tabs, form='dnf'): return bytes(dnf_bytes(names, [[bool(b) for b in t] for t in tabs], form)).decode()
 
 
 def find_closure(e, handler):
@@ -222,7 +228,7 @@ def chain_job(e, p):
     n = p['n']; parsing = p['parsing']; canary = p.get('canary')
     names = HNAMES[:n]
     tabs = A.family_tabs(n, p['fam'])
-    bs = dnf_bytes(names, tabs)
+    bs = dnf_bytes(names, tabs, p.get('form', 'dnf'))
     others = [('w', PROB, 'Parse'), (USER, 'other', 'Stable')]
     def case(m):
         return {'handler': 'chain', 'n': n, 'names': names, 'parsing': parsing, 'code': text_of_model(m, bs), 'others': [list(o) for o in others],
@@ -418,7 +424,7 @@ def validate(ctx, eng, nat, tier, seed):
     for i in range(6 if tier == 'quick' else 20):
         n = rng.choice([2, 2, 3]); names = HNAMES[:n]
         tabs = A.rand_tabs(rng, n); parsing = rng.choice(['Naive', 'Hybrid'])
-        code = dnf_text(names, tabs) if i % 3 else MALFORMED[i % len(MALFORMED)]
+        code = dnf_text(names, tabs, FORMS[i % 4]) if i % 3 else MALFORMED[i % len(MALFORMED)]
         strategies = [s for s, _ in STRAT]
         out = nat.call({'cmd': 'handler_chain', 'code': code, 'parsing': parsing, 'strategies': strategies, 'others': [['w', PROB, 'Parse']], 'user': USER, 'name': PROB}, timeout=60)
         eng.reset_path([]); eng.path_violations = []; eng.hooks['on_panic'] = lambda e_, msg: None
@@ -456,12 +462,15 @@ def validate(ctx, eng, nat, tier, seed):
 
 def jobs(k, tier, rng):
     mod = 'harness.c16h'; out = []
-    for parsing in ('Naive', 'Hybrid'):
-        out.append(Job('handler-n2-%s' % parsing, mod, 'chain_job', {'n': 2, 'fam': ['sym', 'sym'], 'parsing': parsing}, engine_key=k, stop_after_violations=40))
+    # the way the text writes a condition rotates with VERIF_SEED (quick) / is exhaustive (thorough); the plain DNF always runs under Naive parsing
+    sd = rng.randrange(3)
+    plan = [('Naive', 'dnf'), ('Hybrid', FORMS[1 + sd])] if tier == 'quick' else [(pa, fo) for pa in ('Naive', 'Hybrid') for fo in FORMS]
+    for parsing, form in plan:
+        out.append(Job('handler-n2-%s-%s' % (parsing, form), mod, 'chain_job', {'n': 2, 'fam': ['sym', 'sym'], 'parsing': parsing, 'form': form}, engine_key=k, stop_after_violations=40))
     fams = semjobs.families(3, 1, rng, 1 if tier == 'quick' else 4)
     for i, fam in enumerate(fams):
         for parsing in (('Naive', 'Hybrid') if tier != 'quick' else (('Naive', 'Hybrid')[i % 2],)):
-            out.append(Job('handler-n3-%d-%s' % (i, parsing), mod, 'chain_job', {'n': 3, 'fam': fam, 'parsing': parsing}, engine_key=k, stop_after_violations=40))
+            out.append(Job('handler-n3-%d-%s' % (i, parsing), mod, 'chain_job', {'n': 3, 'fam': fam, 'parsing': parsing, 'form': FORMS[(1 + sd + i + (parsing == 'Hybrid')) % 4]}, engine_key=k, stop_after_violations=40))
     for i, t in enumerate(MALFORMED):
         out.append(Job('handler-reject-%d' % i, mod, 'reject_job', {'text': t, 'parsing': ('Naive', 'Hybrid')[i % 2]}, engine_key=k, stop_after_violations=40))
     out.append(Job('handler-reject-sym', mod, 'reject_job', {'L': 3 if tier == 'quick' else 4, 'prefix': 's(a).ac(a,', 'parsing': 'Naive'}, engine_key=k, stop_after_violations=40))
